@@ -112,6 +112,13 @@ def datetimes():
            dt(9999, 12, 31, 23, 59, 59), dt(9999, 12, 31, 23, 59, 59,
                                             tzinfo=UTC),
            A.dt(1600000000, None), A.dt(1600000000, A.FIXED_OFFSETS[1]),
+           # offsets with a fractional second
+           dt(2021, 5, 6, 12, 0, 0, tzinfo=datetime.timezone(
+               datetime.timedelta(seconds=3217, microseconds=200000))),
+           dt(2021, 5, 6, 12, 0, 0, 100000, tzinfo=datetime.timezone(
+               -datetime.timedelta(seconds=17761, microseconds=440000))),
+           dt(1970, 1, 1, 0, 53, 37, 100000, tzinfo=datetime.timezone(
+               datetime.timedelta(seconds=3217, microseconds=200000))),
            time.gmtime(0), time.gmtime(2**32 - 1), time.gmtime(2**32),
            time.struct_time((1969, 12, 31, 23, 59, 59, 2, 365, 0)),
            time.struct_time((1970, 1, 1, 0, 0, 0, 3, 1, -1)),
